@@ -97,7 +97,7 @@ class HGen:
         defaults = [r.choice(["2", "0.5", "'d'"]) for _ in range(ndef)]
         feats = set()
         body = self.body(params, r.randint(0, 3), leafs if not leaf else [], feats)
-        kind = r.choice(["def", "def", "def-doc", "lambda", "multi"]) if not leaf else r.choice(["def", "def", "lambda", "multi"])
+        kind = r.choice(["def", "def", "def-doc", "lambda", "lambda-ml", "multi"]) if not leaf else r.choice(["def", "def", "lambda", "lambda-ml", "multi"])
         sig = ", ".join(p if j < np - ndef else f"{p}={defaults[j - (np - ndef)]}" for j, p in enumerate(params))
         name = f"h{i}"
         if kind == "def":
@@ -106,6 +106,11 @@ class HGen:
             text = f"def {name}({sig}):\n    'lambda {params[0]}: ({params[0]}'\n    return {body}\n"
         elif kind == "lambda":
             text = f"{name} = lambda {sig}: {body}\n"
+        elif kind == "lambda-ml":
+            # an assigned lambda inside brackets whose body goes on on the next line without brackets of its own (the first line
+            # alone is a complete expression too)
+            feats.add("assigned-lambda-over-several-lines")
+            text = f"{name} = (\n    lambda {sig}: {body}\n    .tail{i}\n)\n"
         else:
             text = f"def {name}({sig}):\n    tmp = {body}\n    return tmp\n"
         h = {"name": name, "params": params, "defaults": defaults, "body": body, "kind": kind, "leaf": leaf, "inlinable": kind != "multi", "feats": feats, "text": text}
